@@ -264,8 +264,8 @@ def gen_e2e(rng, quick, count, nmax):
              "kpca_lin", "kpca_gauss", "kpca_poly", "isomap", "lattice"]
     for t in range(count):
         kind = kinds[t % len(kinds)]
-        n = rng.choice([3, 4, 5, 6, 7, 8, 9, 12, 16, 20] + ([24, 33, 40] if t % 7 == 0 else []))
-        n = min(n, nmax)
+        n = rng.choice([nmax, (3 * nmax) // 5, nmax // 2]) if t % 17 == 5 else rng.choice([3, 4, 5, 6, 7, 8, 9, 10, 12, 16])
+        n = max(3, min(n, nmax))
         c = {"gen": kind, "k": 0, "seed": rng.randrange(1, 10 ** 6), "euclid": False, "rank": None, "meth": "mds"}
         if kind in ("euclid_eq", "euclid_lt", "euclid_gt", "offset", "dupes", "lattice"):
             r = rng.randint(1, min(4, n - 2)) if n > 2 else 1
